@@ -134,3 +134,32 @@ void h_c04_builder_labels(void)
     __CPROVER_assert(w08_edge(0, 0) == nedge && w08_loc(0, 0) == nloc, "c04.label:no-edge-or-location-is-added-or-dropped");
     REACH;
 }
+
+/* select bindings: `select i : T` declares i, constant, in the edge's select scope - also when a variable of that name is
+   visible outside (a warning, but the binder still is the innermost declaration: C07) */
+extern int verif_warnings;
+void w04_select(int id, int type_id, int outer_name);
+int w04_ntypes(void);
+int w04_select_frame(int what);
+int w04_resolves_to_select(int name);
+#define TY(kind, konst, range) (((kind) * 2 + (konst)) | ((range) << 22))
+void h_c04_builder_select(void)
+{
+    int id, kind, konst, range, outer;
+    __CPROVER_assume(id >= 30 && id <= 33 && VALID_KIND(kind) && (konst == 0 || konst == 1) && (range == 0 || range == 1) && outer >= -1 && outer <= 33 && (outer < 0 || outer >= 30));
+    w04_init(2, 1, 1, 0, 1);
+    w04_select(id, TY(kind, konst, range), outer);
+    int ok_type = (kind == K_INT || kind == K_SCALAR) && range;
+    __CPROVER_assert(w04_ntypes() == 0, "c04.select:the-binder's-type-is-consumed");
+    if (ok_type) {
+        __CPROVER_assert(verif_errors == 0 && w04_select_frame(0) == 1 && w04_select_frame(1) == id, "c04.select:the-binder-is-declared-in-the-edge's-select-scope-(also-when-the-name-is-visible-outside)");
+        __CPROVER_assert(w04_select_frame(2) == TY(kind, 1, range), "c04.select:the-binder-has-the-declared-type,-made-constant");
+        __CPROVER_assert(w04_resolves_to_select(id), "c07.select:inside-the-edge-the-name-denotes-the-select-binder-(the-innermost-declaration)");
+        __CPROVER_assert(verif_warnings == (outer == id), "c04.select:shadowing-an-outer-declaration-is-a-warning");
+        if (outer == id) __CPROVER_assert(0, "reach:shadowing");
+    } else {
+        __CPROVER_assert(verif_errors == 1 && w04_select_frame(0) == 0, "c04.select:a-binder-that-does-not-range-over-an-integer-or-scalar-set-is-rejected");
+        __CPROVER_assert(0, "reach:bad-type");
+    }
+    REACH;
+}
